@@ -53,11 +53,7 @@ Theorem C17_exact_balances : forall v r d b,
                  | None => if v_taproot v then max_rbf_sequence else max_tx_in_sequence
                  end /\
   d_locktime d = match r_locktime r with Some l => l | None => 0 end.
-Proof.
-  intros v r d b HR HP.
-  pose proof (exact_balances v r d b HR HP) as H.
-  unfold local_out, remote_out in H. rewrite !side_out_spec in H. exact H.
-Qed.
+Proof. exact exact_balances_explicit. Qed.
 
 (* The proposal is refused with "cannot afford" exactly when the paying party
    owns less than the fee (after the opener has been credited commit fee and
@@ -97,11 +93,7 @@ Section Signatures.
     close_proposal (mirror_view v) (mirror_req r) = inr (d', b') ->
     verify (pub ka) (digest d') (sign ka (digest d)) = true /\
     verify (pub kb) (digest d) (sign kb (digest d')) = true.
-  Proof.
-    intros v r d b d' b' ka kb H1 H2.
-    pose proof (same_tx v r) as S. rewrite H1, H2 in S. subst d'.
-    split; apply verify_sign.
-  Qed.
+  Proof. exact (signatures_verify sk pk msg sig pub digest sign verify verify_sign). Qed.
 End Signatures.
 
 (* Legacy negotiation terminates: ideal fees a (opener) and b, both >= 100 sat
@@ -133,12 +125,7 @@ Theorem C17_negotiation_round_bound_log2 : forall a b cap_o cap_r aff_o aff_r m,
     forall fuel, (8 * m + 4 <= fuel)%nat ->
       let s := sys_run fuel (sys_start false a cap_o aff_o b cap_r aff_r) in
       agreed_on s f /\ sys_msg s = None /\ sys_rounds s = rounds.
-Proof.
-  intros a b cap_o cap_r aff_o aff_r m Ha Hb H1 H2 H3 H4 H5.
-  apply negotiation_terminates; auto.
-  apply close_enough_log2; auto.
-  apply Z.min_glb_lt; apply Z.lt_le_trans with 100; auto; reflexivity.
-Qed.
+Proof. exact negotiation_round_bound_log2. Qed.
 
 (* Taproot channels: the non-opener accepts the opener's first offer. *)
 Theorem C17_taproot_negotiation_terminates : forall a b cap_o cap_r aff_o aff_r,
@@ -159,8 +146,4 @@ Theorem C17_ratchet_stuck_refuted :
     forall fuel,
       let s := sys_run fuel (sys_start false a cap aff b cap aff) in
       agreedb s = None /\ sys_err s = None /\ sys_msg s <> None.
-Proof.
-  split; [exact ratchet_identity_below_10|].
-  exists 1, 5, 1000, 1000. repeat split; try reflexivity; try discriminate;
-    apply (stuck_forever fuel).
-Qed.
+Proof. exact ratchet_stuck_refuted. Qed.
